@@ -345,6 +345,11 @@ def run(ctx):
                     scale = max(abs(want[0]), abs(want[1]))
                     if scale and not (Fraction(1, 10**250) < scale < 10**250):
                         continue
+                    if got[0] == 0 and got[1] == 0 and res.magnitude != 0 and isinstance(res.unit.prefix.exponent, float):
+                        # the oracle's own limit, not the library's: the value of a prefix with a float exponent (mixed bases) is
+                        # base ** exponent in float arithmetic, and 2 ** -1154.1 underflows to 0.0 there (thorough seed 17)
+                        ctx.count("not_judged_oracle_underflow_of_a_float_exponent_prefix")
+                        continue
                     if not overlaps(got[:2], want, scale * R9):
                         ctx.violation(f"C06:{opname}:si-value-differs", f"{xa!r} {opname} {(xb if opname != 'pow' else power)!r} = {res!r}: SI {core.sf(got[0])!r} expected {core.sf(want[0])!r}", case)
                     if opname == "mul" and res2 is not None and kit.finite(res2.magnitude) and not overlaps(si(res2)[:2], want, scale * R9):
